@@ -410,12 +410,7 @@ func (x *fnCtx) applyContract(st *State, fr *Frame, in ssa.Instruction, con *Con
 	}
 	// allocation set only grows across a call that may allocate
 	if !con.Pure {
-		old := x.heapArr(st, "$alloc", ArrSort(SInt, SBool))
-		nw := Fresh("H.$alloc", ArrSort(SInt, SBool))
-		bk := BVar("r", SInt)
-		st.assume(Forall([]*Term{bk}, Implies(Select(old, bk), Select(nw, bk)), Select(old, bk)))
-		st.assume(Not(Select(nw, IntLit(0))))
-		st.heap.m["$alloc"] = nw
+		x.growAlloc(st, con.Allocates, true)
 		x.writes["$alloc"] = true
 	}
 	// result
@@ -470,6 +465,29 @@ func (x *fnCtx) applyContract(st *State, fr *Frame, in ssa.Instruction, con *Con
 		}()
 	}
 	return res
+}
+
+// growAlloc replaces the allocation set by an unknown superset. The superset fact is stated
+// over the base symbol of the current set (with the explicitly stored references listed), in
+// both trigger directions, so that chains of calls instantiate.
+func (x *fnCtx) growAlloc(st *State, allocates []string, typed bool) {
+	old := x.heapArr(st, "$alloc", ArrSort(SInt, SBool))
+	nw := Fresh("H.$alloc", ArrSort(SInt, SBool))
+	base := old
+	for base.Kind == KBuiltin && base.Op == "store" && len(base.Args) == 3 && base.Args[2] == True {
+		st.assume(Select(nw, base.Args[1]))
+		base = base.Args[0]
+	}
+	bk := BVar("r", SInt)
+	st.assume(Forall([]*Term{bk}, Implies(Select(base, bk), Select(nw, bk)), Select(base, bk)))
+	st.assume(Forall([]*Term{bk}, Implies(Select(base, bk), Select(nw, bk)), Select(nw, bk)))
+	st.assume(Not(Select(nw, IntLit(0))))
+	if typed && len(x.eng.tracked) > 0 {
+		// objects created by the callee are of untracked types, or of the types it declares
+		tags := x.eng.trackedTags(append([]string{}, allocates...))
+		st.assume(Forall([]*Term{bk}, Implies(And(Select(nw, bk), Not(Select(old, bk))), typeAmong(bk, tags)), Select(typeHeap, bk)))
+	}
+	st.heap.m["$alloc"] = nw
 }
 
 // mentionsBind: the unknown identifier of msg is one of the callee's own trace bindings
